@@ -158,7 +158,7 @@ theorem C14_defaults (ss : Bool) (kvs : Entries) (t : Typed) :
   · intro hl h; exact C14_defaults_generic ss true _ kvs t _ _ (.leaf .u64) (by decide) (by simp [dfl]) hl h
   · intro hl h; exact C14_defaults_generic ss true _ kvs t _ _ (.opt (.leaf .u32)) (by decide) (by simp [optF, req]) hl h
   · intro hl h; exact C14_defaults_generic ss true _ kvs t _ _ rootS (by decide) (by simp [dfl, optF]) hl h
-  · intro hl h; exact C14_defaults_generic ss true _ kvs t _ _ (.mapOf appenderEntryS) (by decide) (by simp [dfl, optF]) hl h
+  · intro hl h; exact C14_defaults_generic ss true _ kvs t _ _ (.mapOf (appenderEntrySWith appenderEnvelopeLazy)) (by decide) (by simp [dfl, optF]) hl h
   · intro hl h; exact C14_defaults_generic ss true _ kvs t _ _ (.mapOf loggerS) (by decide) (by simp [dfl, optF]) hl h
   · intro hl h; exact C14_defaults_generic ss true _ kvs t _ _ (.opt (.leaf .duration)) (by decide) (by simp [dfl, optF]) hl h
   · exact kindOf_default _ kvs
@@ -179,11 +179,49 @@ theorem C14_defaults (ss : Bool) (kvs : Entries) (t : Typed) :
   * `PatternEncoder::new`: the pattern parser (C11's subject; the harness uses one fixed pattern);
   * `FileAppender::build` / `RollingFileAppenderBuilder::build`: `io::Result`, no unwrap;
   * `serde_value` / derive code: no unwrap on user data; `ConfigBuilder::build_lossy`: none.
-The FULL statement "loading never panics" is false of the code and of the model: -/
+The time-trigger items were real (findings C14/time-trigger-interval-zero-modulate and
+-out-of-range, C16's subject) until /repo 80d997f made `TimeTrigger::new` total; the historical
+constructor is still in the model (`timeTriggerNewWith false`). -/
 def C14_load_total_statement : Prop :=
   ∀ (ss : Bool) (v : Value) (w : String), loadLossy ss v ≠ .panic w
 
-/-- witness: a rolling-file appender whose time trigger has `interval: 0` and `modulate: true` -/
+/-- Loading never panics: for EVERY document the lossy pipeline returns `ok` or `err`.  (The only
+panic source of the model is the time-trigger constructor, total since the repair.) -/
+theorem C14_load_total : C14_load_total_statement := by
+  intro ss v w
+  have hT : ∀ u n m d w, timeTriggerNew u n m d ≠ .panic w := by
+    intro u n m d w
+    show timeTriggerNewWith timeTriggerTotal u n m d ≠ .panic w
+    rw [show timeTriggerTotal = true from rfl, timeTriggerNewWith_total]
+    simp
+  simp only [loadLossy, loadRaw]
+  cases hi : interp ss docS v with
+  | error e => simp
+  | ok doc =>
+    simp only [rawLoad]
+    cases ha : appendersLossy (Typed.asDict (doc.field (c!"appenders"))) with
+    | panic w' => exact absurd ha (appendersLossy_total hT _ w')
+    | ok p => simp
+    | err e => simp
+
+/-- strict loading never panics either -/
+theorem C14_load_total_strict (ss : Bool) (v : Value) : loadStrict ss v ≠ .panic := by
+  have h := C14_load_total ss v
+  simp only [loadLossy] at h
+  simp only [loadStrict]
+  cases hr : loadRaw ss v with
+  | panic w' => rw [hr] at h; exact absurd rfl (h w')
+  | ok r => simp only; split <;> (try split) <;> simp
+  | err e => simp
+
+/-- historical (before /repo 80d997f): the constructor panicked for `interval: 0` with
+`modulate: true` (`% 0`) and for a count of `i64::MAX` seconds (`TimeDelta::seconds`) -/
+theorem C14_time_trigger_historical_panics :
+    (timeTriggerNewWith false .second 0 true 0).isPanic = true
+    ∧ (timeTriggerNewWith false .second 9223372036854775807 false 0).isPanic = true := by
+  decide
+
+/-- the document that made the historical code panic -/
 def panicWitness : Value :=
   .map [(c!"appenders", .map [(c!"a", .map [(c!"kind", .str (c!"rolling_file")),
     (c!"path", .str (c!"a.log")),
@@ -192,15 +230,8 @@ def panicWitness : Value :=
         (c!"modulate", .bool true)]),
       (c!"roller", .map [(c!"kind", .str (c!"delete"))])])])])]
 
-theorem C14_load_total_refuted : ¬ C14_load_total_statement := by
-  intro h
-  have hp : (loadLossy false panicWitness).isPanic = true := by decide
-  cases hl : loadLossy false panicWitness with
-  | panic w => exact h false panicWitness w hl
-  | ok b => rw [hl] at hp; cases hp
-  | err e => rw [hl] at hp; cases hp
-
-/-- What holds: a document all of whose time triggers are in the safe range (count not 0 under
+/-- Independent of the repair (holds of the historical constructor too): a document all of whose
+time triggers are in the safe range (count not 0 under
 `modulate`; count and random delay ≤ 100000) never makes loading panic — lossy or strict. -/
 theorem C14_load_total_partial (ss : Bool) (v : Value) (doc : Typed)
     (hdoc : interp ss docS v = .ok doc)
@@ -373,6 +404,103 @@ theorem C14_lossy_isolation_dangling (r : RawLoad) :
     simp only [List.mem_filter] at this
     simpa using this.2
 
+/-! ### after the lazy-envelope repair (`docSWith true`)
+These theorems are stated on the repaired schema explicitly, so they compile whatever the current
+value of the model flag `appenderEnvelopeLazy` is. -/
+
+theorem appenderEntrySWith_true : appenderEntrySWith true = .lazy appenderLazyS := rfl
+
+/-- with the lazy envelope the appender table cannot reject the document any more: whatever the
+entries are, each is typed or recorded as `failed` -/
+theorem C14_lossy_isolation_table_total_fixed (ss : Bool) (kvs : Entries) :
+    ∃ ts, interp ss (.mapOf (appenderEntrySWith true)) (.map kvs) = .ok (.dict ts) := by
+  obtain ⟨ts, h⟩ := mapEntries_total (fun v => interp ss (appenderEntrySWith true) v)
+    (fun v => by rw [appenderEntrySWith_true]; exact interp_lazy_total ss appenderLazyS v) kvs
+  exact ⟨ts, by simp only [interp, h]⟩
+
+/-- what a broken appender ENVELOPE is: the entry is not a map, or its `kind` is missing or not a
+string, or its `filters` is not a sequence -/
+theorem C14_broken_envelope_fixed (ss : Bool) (v : Value)
+    (h : v.isMap = false
+      ∨ (∃ kvs e, v = .map kvs ∧ kindOf none kvs = .error e)
+      ∨ (∃ kvs f, v = .map kvs ∧ lookup (c!"filters") kvs = some f ∧ (∀ xs, f ≠ .seq xs))) :
+    ∃ e, interp ss appenderLazyS v = .error e := by
+  rcases h with h | ⟨kvs, e, rfl, hk⟩ | ⟨kvs, f, rfl, hf, hns⟩
+  · cases v with
+    | map kvs => simp [Value.isMap] at h
+    | _ => exact ⟨.invalidType, by simp only [appenderLazyS, interp]⟩
+  · exact ⟨e, by simp only [appenderLazyS, interp, hk]⟩
+  · cases hk : kindOf none kvs with
+    | error e => exact ⟨e, by simp only [appenderLazyS, interp, hk]⟩
+    | ok kind =>
+      refine ⟨.invalidType, ?_⟩
+      have hfi : interp ss (.seqOf (.lazy filterS)) f = .error .invalidType := by
+        cases f <;> first | exact absurd rfl (hns _) | simp only [interp]
+      simp only [appenderLazyS, interp, hk, interpFields, dfl, hf, hfi]
+
+/-- A broken appender envelope is reported (`Appender(name, …)`) and only that appender is dropped:
+the document loads, every other entry of the table is typed exactly as in the document without the
+broken entry, and `appenders_lossy` yields the same appenders in the same order with the same
+errors plus the one for `name`. -/
+theorem C14_lossy_isolation_envelope_fixed (ss : Bool) (xs ys : Entries) (name : Key) (v : Value)
+    (e : Err) (txs tys : List (Key × Typed)) (d1 d2 : List AppenderDesc) (e1 e2 : List LoadErr)
+    (hx : interp ss (.mapOf (appenderEntrySWith true)) (.map xs) = .ok (.dict txs))
+    (hy : interp ss (.mapOf (appenderEntrySWith true)) (.map ys) = .ok (.dict tys))
+    (hbroken : interp ss appenderLazyS v = .error e)
+    (hlx : appendersLossy txs = .ok (d1, e1)) (hly : appendersLossy tys = .ok (d2, e2)) :
+    interp ss (.mapOf (appenderEntrySWith true)) (.map (xs ++ (name, v) :: ys)) =
+        .ok (.dict (txs ++ (name, .failed e) :: tys))
+    ∧ appendersLossy (txs ++ (name, .failed e) :: tys) = .ok (d1 ++ d2, e1 ++ ([.appender name] ++ e2))
+    ∧ interp ss (.mapOf (appenderEntrySWith true)) (.map (xs ++ ys)) = .ok (.dict (txs ++ tys))
+    ∧ appendersLossy (txs ++ tys) = .ok (d1 ++ d2, e1 ++ e2) := by
+  have hv : interp ss (appenderEntrySWith true) v = .ok (.failed e) := by
+    rw [appenderEntrySWith_true]; exact interp_lazy_error ss _ v e hbroken
+  obtain ⟨h1, h2⟩ := interp_mapOf_insert ss _ xs ys name v txs tys _ hx hy hv
+  obtain ⟨h3, h4⟩ := C14_lossy_isolation_appender txs tys name (.failed e) d1 d2 e1 e2
+    [.appender name] hlx hly rfl
+  exact ⟨h1, h3, h2, h4⟩
+
+/-- a well-formed envelope is typed exactly as before the repair -/
+theorem C14_envelope_ok_fixed (ss : Bool) (v : Value) (t : Typed)
+    (h : interp ss appenderLazyS v = .ok t) : interp ss (appenderEntrySWith true) v = .ok t := by
+  rw [appenderEntrySWith_true]; exact interp_lazy_ok ss _ v t h
+
+/-- filter entries cannot fail the appender's envelope any more -/
+theorem C14_filter_entries_total_fixed (ss : Bool) (xs : List Value) :
+    ∃ ts, interp ss (.seqOf (.lazy filterS)) (.seq xs) = .ok (.list ts) := by
+  obtain ⟨ts, h⟩ := mapVals_total (fun v => interp ss (.lazy filterS) v)
+    (fun v => interp_lazy_total ss filterS v) xs
+  refine ⟨ts, ?_⟩
+  simp only [interp] at h ⊢
+  rw [h]
+
+/-- A filter entry with a broken envelope (not a map, `kind` missing or not a string: typed as
+`failed`) is reported (`Filter(name, …)`) and only that filter is dropped; the appender is KEPT and
+is otherwise exactly the appender of the document without that filter entry. -/
+theorem C14_lossy_isolation_filter_fixed (name kind : Key) (e : Err)
+    (fs1 fs2 : List Typed) (body : Typed) :
+    let bad := Typed.failed e
+    let withBad := appenderOutcome name (.tagged kind [(c!"filters", .list (fs1 ++ bad :: fs2))] body)
+    let without := appenderOutcome name (.tagged kind [(c!"filters", .list (fs1 ++ fs2))] body)
+    withBad.2 = without.2 ∧ withBad.1 = LoadErr.filter name :: without.1 := by
+  intro bad withBad without
+  have hlev : (fs1 ++ bad :: fs2).filterMap filterOutcome = (fs1 ++ fs2).filterMap filterOutcome := by
+    simp [List.filterMap_append, List.filterMap_cons, bad, filterOutcome]
+  have hferr : ((fs1 ++ bad :: fs2).filter (fun f => (filterOutcome f).isNone)).map
+        (fun _ => LoadErr.filter name) =
+      LoadErr.filter name :: ((fs1 ++ fs2).filter (fun f => (filterOutcome f).isNone)).map
+        (fun _ => LoadErr.filter name) := by
+    have hbad : (filterOutcome bad).isNone = true := rfl
+    simp only [List.filter_append, List.map_append, List.filter_cons, hbad, if_true, List.map_cons]
+    exact const_map_shift _ _ _
+  simp only [withBad, without, appenderOutcome, tlookup, if_true, Typed.asList, hlev, hferr]
+  cases body with
+  | failed e' => exact ⟨rfl, rfl⟩
+  | _ =>
+    all_goals
+      simp only
+      split <;> exact ⟨rfl, rfl⟩
+
 /-! ### the document of a logical configuration -/
 
 /-- FULL statement (not proved in this form): every logical configuration, rendered with any
@@ -511,6 +639,8 @@ example : (match interp false docS sampleDoc with
 example : (match interp false docS panicWitness with
     | .ok doc => (Typed.asDict (doc.field (c!"appenders"))).all (fun nt => appenderSafe nt.2)
     | .error _ => true) = false := by decide
+-- … and the repaired code loads the historical witness
+example : (loadLossy false panicWitness).isOk = true := by decide
 -- hypotheses of `C14_render_interp_partial_routing` on a non-trivial configuration
 example : (parseLevel (c!"wArN")).isSome = true ∧ (parseDuration (c!"30 seconds")).isSome = true := by decide
 -- JSON / TOML take a sequence for the root struct, YAML does not (finding seq-for-struct)
